@@ -4,7 +4,7 @@ CONSTANTS
   Fns = {"Print", "Printf", "Println", "Fprint", "Fprintf", "Fprintln", "Sprint", "Sprintf", "Sprintln", "Errorf", "Sscan"}
   Shs = {"-"}
   ScopeAware = TRUE
-  LambdaParamsScoped = FALSE
-  BareReturnLambda2 = FALSE
+  LambdaParamsScoped = TRUE
+  BareReturnLambda2 = TRUE
 INVARIANTS TypeOK Confluent ImportSound Export
 PROPERTIES Stable Terminates
